@@ -2,7 +2,7 @@
 from pyvc.api import contract
 from spec.prims import implies, is_absent, member, old, same, class_is
 from spec.jsonrpc import id_ok, valid_error_obj, valid_request_obj, valid_response_obj
-from spec.wire import request_wire
+from spec.wire import request_wire, response_wire
 
 from pjrpc.common.common import UNSET
 from pjrpc.common.v20 import Request, Response
@@ -73,7 +73,7 @@ def params_ok(p):
 
 @contract('pjrpc.common.v20:Request.to_json', props=['C05', 'C07'])
 class RequestToJson:
-    types = {'self': '=pjrpc.common.v20:Request'}
+    types = {'self': 'pjrpc.common.v20:Request'}
     raises_only = ()
     result_type = '=dict'
 
@@ -103,7 +103,7 @@ class JsonRpcErrorToJson:
 
 @contract('pjrpc.common.v20:Response.to_json', props=['C05', 'C01'])
 class ResponseToJson:
-    types = {'self': '=pjrpc.common.v20:Response'}
+    types = {'self': 'pjrpc.common.v20:Response'}
     raises_only = ()
     result_type = '=dict'
 
@@ -113,23 +113,4 @@ class ResponseToJson:
             self._error is UNSET or isinstance(self._error, JsonRpcError))
 
     def ensures_wire(self, result):
-        e = member(result, 'error')
-        return (
-            member(result, 'jsonrpc') == '2.0' and same(member(result, 'id'), self._id)
-            and (same(member(result, 'result'), self._result) if self._result is not UNSET
-                 else is_absent(member(result, 'result')))
-            and (is_absent(e) == (self._error is UNSET))
-            and len(result) == 3
-        )
-
-    def ensures_error_wire(self, result):
-        if self._error is UNSET:
-            return True
-        e = member(result, 'error')
-        d = member(e, 'data')
-        return (
-            isinstance(e, dict)
-            and same(member(e, 'code'), self._error.code) and same(member(e, 'message'), self._error.message)
-            and (same(d, self._error.data) if self._error.data is not UNSET else is_absent(d))
-            and len(e) == 2 + (0 if self._error.data is UNSET else 1)
-        )
+        return response_wire(result, self)
